@@ -1211,8 +1211,11 @@ class Interp:
                 self.learn_uids(sess, box)
 
     def learn_uids(self, sess, box, fresh_only=False):
+        held = {x.uid for x in box.msgs if x.uid is not None}
         for cell, m in zip(sess.view or [], box.msgs):
             if cell is not None and m.uid is None:
+                if cell in held:
+                    return  # (that UID is another message's: view and model are not aligned - leave it to the observer)
                 if fresh_only:
                     # (a stale cell of a session with EXPUNGEs pending holds the UID of a message that is gone: the
                     # ledger knows that UID with another message)
